@@ -49,7 +49,7 @@ func (Engine) Meta() simrt.Meta {
 		RealCode:    []string{"internal/ebnf/lexer", "internal/ebnf/parser (+ast, spec)", "internal/regex/parser (+nfa, ast)", "Spec.DFA / LALRParsingTable", "real emerge binary built from the current tree (CLI tier: cmd/emerge, internal/command, generator)", "moorara/algo"},
 		Stubs:       []string{"io.Reader (SimReader with all fault kinds)", "callbacks (trivial)", "real file system for the CLI tier (no fault injection there; the injecting CLI tier is the E-FS engine)"},
 		FaultKinds:  []string{"fault_eof_truncation", "fault_read_error", "fault_read_error_with_data", "fault_short_read", "fault_zero_read", "fault_data_with_eof", "fault_byte_mutation"},
-		CaseTimeout: 120 * time.Second,
+		CaseTimeout: 400 * time.Second,
 	}
 }
 
@@ -570,8 +570,8 @@ func (e Engine) Run(t *simrt.Tape, c simrt.Case, x *simrt.Ctx) *simrt.Result {
 	case kManySymbols:
 		// specifications with many distinct terminals, non-terminals and productions: the symbol
 		// tables grow through several resizes (sizes in the fixtures never reach the first one)
-		for i := 0; i < 12; i++ {
-			n := 40 + t.Draw(260)
+		for i := 0; i < 8; i++ {
+			n := 40 + t.Draw(180)
 			style := t.Draw(4)
 			salt := t.Draw(100000)
 			var sb strings.Builder
